@@ -163,7 +163,8 @@ def run(chk, opts):
                                  keep=lambda c: c.get("kind") in EXEC)
     chk.notes["design_run"] = r.summary()
     cfgs.sort(key=lambda c: (c["kind"], str(c)))
-    cases = [{"id": "C19/%s/%05d" % (c["kind"], k), "cfg": c, "seed": chk.seed} for k, c in enumerate(cfgs)]
+    cases = [{"id": "C19/%s/%05d" % (c["kind"], k), "cfg": c, "seed": chk.seed,
+              "derived": {"sample_order": len(c["xs"]), "scalar_target": len(c.get("ys", [0])) == 0}} for k, c in enumerate(cfgs)]
     chk.add_cases(cases)
     events = execute_cases(execute, cases, repo=chk.repo)
     count = {}
